@@ -27,14 +27,16 @@ YOUTUBE_REDIRECT_RE = re.compile(r"youtube\.com(?::\d*)?/redirect\?", re.I)
 
 
 def infer_one_redirection(url):
-    redirection_split = REDIRECTION_DOMAINS_RE.split(url, 1)
+    # NOTE: a cache host is looked for before the fragment only: the fragment
+    # is never sent to a server (what follows the cache host can have one)
+    redirection_match = REDIRECTION_DOMAINS_RE.search(url.split("#", 1)[0])
 
     target = None
 
-    if len(redirection_split) > 1:
+    if redirection_match is not None:
         # NOTE: avoiding empty AMP redirects etc.
-        if len(redirection_split[1]):
-            target = "https://" + redirection_split[1]
+        if len(url) > redirection_match.end():
+            target = "https://" + url[redirection_match.end() :]
 
     else:
         # NOTE: a redirection hint is a GET parameter: the fragment is never
